@@ -503,6 +503,8 @@ type result struct {
 	}
 }
 
+const c05Keys = `^(replicas-apply-different-entries|replicas-do-not-converge)$`
+
 func main() {
 	thorough := os.Getenv("VERIF_TIER") == "thorough"
 	limits.joins, limits.removes, limits.snapshots, limits.restarts, limits.maxNode = 2, 1, 2, 2, 3
@@ -514,6 +516,9 @@ func main() {
 		limits.entries = 2
 		depth = 8
 		budget = 25 * time.Minute
+	}
+	if len(os.Args) > 2 && os.Args[1] == "--replay" && ev.PartOf(os.Args[2]) == "C05" {
+		ev.ReplayPart("C20", os.Getenv("VERIF_BIN_C05"), c05Keys, os.Args[2], "VERIF_PART_MODE=directed", "VERIF_TUNABLE_snapshotOffset=0")
 	}
 	if len(os.Args) > 2 && os.Args[1] == "--replay" {
 		var f struct {
@@ -624,6 +629,13 @@ func main() {
 		}
 		return nil
 	})
+	if os.Getenv("VERIF_AS") == "" {
+		// the zero group is a RaftGroup like any other: whatever its ready loop fails to hand to the state machine - a
+		// membership change among the entries behind a snapshot, say - is a member whose view never converges. C05's
+		// directed lagging-follower histories on bare groups count here for replicas that end up having applied
+		// different things.
+		run.RunPart("lagging-follower-C05", os.Getenv("VERIF_BIN_C05"), c05Keys, "VERIF_PART_MODE=directed", "VERIF_TUNABLE_snapshotOffset=0")
+	}
 	run.Assumptions = []string{
 		"servers are built by the real Server.setup(); joins go through the real NodesManager.Join / AddNode handshake, removals through RemoveNode; the zero-group snapshot offset is lowered to 0",
 		"one event at a time, the cluster settles in between; a lost handshake reply makes the joining process exit (as cmd/anndb does) and be started again",
